@@ -121,10 +121,28 @@ def run(ctx):
         srcs = esl.sources(s.expr[2][0])
         key = "error sink %s" % model.short_callee(s.term.callee_path())
         vars_ = [z for z in srcs if z.startswith("var:")]
-        if vars_ and all(re.match(r"var:(inner|self\.inner|RefMut::deref(_mut)?\(&inner\))", z) for z in vars_) and any("destination" in z for z in vars_):
+        base = r"var:(inner|self\.inner|RefMut::deref(_mut)?\(&inner\)|Option::(take|as_ref|as_deref|as_mut)\(&?RefMut::deref(_mut)?\(&inner\)\.destination\))"
+
+        def from_destination(z):
+            """a local bound to (part of) inner.destination, e.g. `if let Some(destination) = inner.destination.take()`"""
+            if re.match(base, z):
+                return True
+            name = z[4:]
+            ds = [d for d in esl.var_defs().get(name, []) if d[0] == ""]
+            if not ds:
+                return False
+            for (_, ex_, _) in ds:
+                txt = show(esl.expand(ex_), 300)
+                leaves = [show(c) for c in walk(esl.expand(ex_)) if c[0] == "var"]
+                if not (re.search(r"inner\)?\.destination", txt) and all(re.match(r"(inner|self\.inner)\b", l) or "inner).destination" in l or l.startswith("inner") for l in leaves)):
+                    return False
+            return True
+        only_file = model.short_callee(s.term.callee_path()).endswith("remove_file")
+        if vars_ and all(from_destination(z) for z in vars_) and any("destination" in z for z in vars_) and only_file:
             r3.ok(key, "deletes inner.destination", s.loc)
         else:
-            r3.violation(key, "remove_file argument derives from %s" % vars_, s.loc)
+            r3.violation(key, ("%s in error(): only remove_file(inner.destination) may delete; " % model.short_callee(s.term.callee_path()) if not only_file else "") +
+                         "argument derives from %s" % vars_, s.loc)
     r3.floor(4, "destination facts")
 
     # ---- R4 (thorough) -------------------------------------------------------------------------
